@@ -6,3 +6,8 @@ package kgo
 // harness (build tag "verif") may inject a scheduling delay. Without the tag
 // it is an empty function that the compiler inlines away.
 func verifPoint(string) {}
+
+// verifInitRecBuf lets the verification harness (build tag "verif") start a
+// new partition's produce sequence numbers somewhere other than 0. Without
+// the tag it does nothing.
+func verifInitRecBuf(*recBuf) {}
